@@ -900,15 +900,21 @@ func deepGet(m map[string]any, keys ...string) (any, bool) {
 	return m, true
 }
 
-func deepSet(m map[string]any, keys []string, value any) {
+func deepSet(m map[string]any, keys []string, value any) error {
 	for i := 0; i < len(keys)-1; i++ {
 		key := keys[i]
 		if _, ok := m[key]; !ok {
 			m[key] = make(map[string]any)
 		}
-		m = m[key].(map[string]any)
+		next, ok := m[key].(map[string]any)
+		if !ok {
+			// e.g. obj[a]=1&obj[a][b]=2: "a" cannot be both a value and an object
+			return &ParseError{path: pathFromKeys(keys[:i+1]), Kind: KindInvalidFormat, Reason: "property is set both as a value and as an object"}
+		}
+		m = next
 	}
 	m[keys[len(keys)-1]] = value
+	return nil
 }
 
 func findNestedSchema(parentSchema *openapi3.SchemaRef, keys []string) (*openapi3.SchemaRef, error) {
@@ -942,7 +948,9 @@ func makeObject(props map[string]string, schema *openapi3.SchemaRef) (map[string
 			p := pathFromKeys(keys)
 			return nil, &ParseError{path: p, Kind: KindInvalidFormat, Reason: "array items must be set with indexes"}
 		}
-		deepSet(mobj, keys, value)
+		if err := deepSet(mobj, keys, value); err != nil {
+			return nil, err
+		}
 	}
 	r, err := buildResObj(mobj, nil, "", schema)
 	if err != nil {
